@@ -1,22 +1,31 @@
 import AscentVerif.Driver.Agg
 import AscentVerif.Driver.LatTypes
+import AscentVerif.Driver.Idx
 open AscentVerif AscentVerif.Driver
 
-def step (line : String) : String :=
-  match Sexp.parseLine line with
-  | none => "bad-line"
-  | some [] => ""
-  | some (.atom "agg" :: rest) => (handleAgg rest).getD "bad-op"
-  | some (.atom "lat" :: .atom ty :: .atom op :: rest) => (latDispatch ty op rest).getD "bad-op"
-  | some _ => "bad-op"
+structure St where
+  idx : Store := []
 
-partial def loop (h : IO.FS.Stream) (out : IO.FS.Stream) : IO Unit := do
+def step (st : St) (line : String) : St × String :=
+  match Sexp.parseLine line with
+  | none => (st, "bad-line")
+  | some [] => (st, "")
+  | some (.atom "agg" :: rest) => (st, (handleAgg rest).getD "bad-op")
+  | some (.atom "lat" :: .atom ty :: .atom op :: rest) => (st, (latDispatch ty op rest).getD "bad-op")
+  | some (.atom "idx" :: rest) =>
+    match handleIdx st.idx rest with
+    | some (s', out) => ({ st with idx := s' }, out)
+    | none => (st, "bad-op")
+  | some _ => (st, "bad-op")
+
+partial def loop (h : IO.FS.Stream) (out : IO.FS.Stream) (st : St) : IO Unit := do
   let line ← h.getLine
   if line.isEmpty then return ()
-  out.putStrLn (step line)
-  loop h out
+  let (st', o) := step st line
+  out.putStrLn o
+  loop h out st'
 
 def main : IO Unit := do
   let out ← IO.getStdout
-  loop (← IO.getStdin) out
+  loop (← IO.getStdin) out {}
   out.flush
